@@ -230,3 +230,16 @@ PROPS["C20"] = dict(
         dict(test="^TestC20_CrashPoints$", quick=dict(checks=40, timeout=900, shrink="5s"), thorough=dict(checks=50, shards=8, timeout=3000, shrink="5s")),
     ],
 )
+
+PROPS["C15"] = dict(
+    pkg="c15", level="exploration",
+    technique="grammar-based generation of configuration trees with a probe plugin and a resolved-value model; metamorphic re-rendering (key spelling, inline expressions, ${} indirection); single-fault injection; mutation-based totality search",
+    level_text="Exploration over configurations: valid-by-construction configuration trees over every registered logger/appender/layout type and a Probe appender with one attribute of every injectable kind and one element of every shape are rendered three ways (two random renderings with camel/kebab/snake spelling, flat vs inline 'name!' expressions at any depth and ${} indirection, one plain) and must refresh, resolve to the declared values (configured, else default), route a test event to the referenced appenders/files/console and behave identically across renderings; configurations with exactly one injected fault must make Refresh return an error; randomly mutated configurations must make Refresh return (nil or error) without panic.",
+    level_note="Trusted: the harness's resolved-value model and Probe plugin. Names of appenders/loggers are lower-case alphanumeric (a name is a key segment and is camel-cased); values with leading/trailing blanks and the literals [] {} <nil> are not generated as attribute values.",
+    rule="generated configuration trees x renderings; single-fault injection; mutations",
+    steps=[
+        dict(test="^Test(Regress_C15|C15_Valid)$", quick=dict(checks=400, timeout=900), thorough=dict(checks=4000, shards=10, timeout=3000)),
+        dict(test="^TestC15_Faults$", quick=dict(checks=600, timeout=900), thorough=dict(checks=6000, shards=4, timeout=3000)),
+        dict(test="^TestC15_Mutations$", quick=dict(checks=800, timeout=900), thorough=dict(checks=8000, shards=6, timeout=3000)),
+    ],
+)
